@@ -340,7 +340,7 @@ pub struct GenOpts {
 
 /// A valid instance: unique IDs, every used ID defined, bounds that contain at least one small dyadic value.
 pub fn gen_instance(rng: &mut Rng, o: &GenOpts) -> InstSpec {
-    let pool: [u64; 9] = [0, 1, 2, 3, 5, 8, 13, 100, 4294967297];
+    let pool: [u64; 10] = [0, 1, 2, 3, 5, 8, 13, 100, 4294967297, u64::MAX];
     let mut ids = pool.to_vec();
     rng.shuffle(&mut ids);
     let nv = 1 + rng.usize(o.max_vars);
@@ -368,7 +368,7 @@ pub fn gen_instance(rng: &mut Rng, o: &GenOpts) -> InstSpec {
         }
     }
     let objective = if rng.chance(1, 12) { None } else { Some(gen_func(rng, &free_ids, o.max_degree)) };
-    let mut cid_pool: Vec<u64> = vec![0, 1, 2, 3, 4, 7, 10, 99, 4294967296];
+    let mut cid_pool: Vec<u64> = vec![0, 1, 2, 3, 4, 7, 10, 99, 4294967296, u64::MAX];
     rng.shuffle(&mut cid_pool);
     let nc = rng.usize(o.max_cons + 1);
     let nr = rng.usize(o.max_removed + 1);
